@@ -204,7 +204,7 @@ class Scenario:
 # The A x B x abandon x fire matrix
 # =====================================================================================================
 
-A_KINDS = ["sleep", "take", "give", "seltake", "selgive", "read", "write", "pwait", "dl"]
+A_KINDS = ["sleep", "take", "give", "seltake", "selgive", "read", "readT", "write", "pwait", "dl"]
 B_KINDS = ["sleep", "take", "give", "seltake", "selgive", "read", "write", "pwait", "dl", "dlx", "same"]
 
 
@@ -221,6 +221,8 @@ def a_variants():
             abandons = ["cancel", "bodydone", "expired"]
         if a == "sleep":
             abandons = ["cancel", "cancel0", "deadline"]
+        if a == "readT":
+            abandons = ["cancel", "cancel0"]
         fires = {
             "sleep": ["pass"],
             "take": ["give", "close", "giveclose"],
@@ -228,6 +230,7 @@ def a_variants():
             "seltake": ["give", "close", "giveclose"],
             "selgive": ["take", "close"],
             "read": ["write", "closew", "closer"],
+            "readT": ["write", "pass"],
             "write": ["drain", "closer", "closew"],
             "pwait": ["exit"],
             "dl": ["pass"],
@@ -270,6 +273,10 @@ def build(sid, a, ab, fi, b, extra=None):
     elif a == "read":
         s.pipe("pA")
         A = ("read", "pA", 10)
+    elif a == "readT":
+        # read with its own 15 ms timeout, abandoned earlier: the timeout timer (is_error) goes stale
+        s.pipe("pA")
+        A = ("readt", "pA", 10, 15)
     elif a == "write":
         s.pipe("pA")
         A = ("write", "pA", 70000, "a")
@@ -341,7 +348,7 @@ def build(sid, a, ab, fi, b, extra=None):
         elif a in ("give", "selgive"):
             B = ("give", "cA", "xb")
             b_val = "cA"
-        elif a == "read":
+        elif a in ("read", "readT"):
             B = ("read", "pA", 10)
             b_val = '@"BBBB"'
         elif a == "sleep":
@@ -352,6 +359,7 @@ def build(sid, a, ab, fi, b, extra=None):
     F.append(B)
     F.append(("sleep", 0))         # a third, trivial wait: F must get through it undisturbed
     # ------------------------------------------------------------------ driver M
+    M.append(("spawn", "Z", [("sleep", 15)]))
     M.append(("spawn", "F", F))
     if ab == "cancel0":
         # cancellation point: immediately after F registered, same tick, no timer involved
@@ -431,7 +439,7 @@ def build(sid, a, ab, fi, b, extra=None):
             # two items are queued (abandoned :xa, live :xb); the live writer is released by the take that brings
             # the count back to the limit... janet releases the FIRST pending writer on ANY take.
             M.append(("take", "cA"))
-        elif a == "read":
+        elif a in ("read", "readT"):
             M.append(("write", "pA", 4, "B"))
     M.append(("sleep", 30))        # t = 70
     M.append(("dump", "final"))
@@ -570,6 +578,22 @@ def deadline_scenarios():
     s.main = [("spawn", "F", [("deadline", 10, ("take", "cF")), ("take", "cB"), ("sleep", 0)]),
               ("sleep", 5), ("cancel", "F", "stop"), ("sleep", 15), ("dump", "after"), ("give", "cB", "vb"), ("sleep", 10)]
     s.expect = {"resumes": {"F": [(0, "nil"), (5, '"stop"'), (20, ":vb"), (20, "nil")]}}
+    out.append(s)
+    # D6: completion and cancellation of the same wait in one scheduler round: the first task is superseded (run-queue filter),
+    #     the fiber is resumed once, by the cancellation, and its next wait is undisturbed
+    s = Scenario("d6-complete-then-cancel-same-round")
+    s.chan("cF"); s.chan("cB")
+    s.main = [("spawn", "F", [("take", "cF"), ("take", "cB"), ("sleep", 0)]),
+              ("sleep", 10), ("give", "cF", "v1"), ("cancel", "F", "stop"), ("sleep", 10), ("dump", "mid"),
+              ("deadline", 5, ("give", "cB", "vb")), ("sleep", 10)]
+    s.expect = {"resumes": {"F": [(0, "nil"), (10, '"stop"'), (20, ":vb"), (20, "nil")]}}
+    out.append(s)
+    # D7: a sleeping fiber is cancelled and re-sleeps; its first (stale) timer expires in the same timer phase as a live one
+    s = Scenario("d7-stale-timer-behind-live-timer")
+    s.main = [("spawn", "Z", [("sleep", 15)]),
+              ("spawn", "F", [("sleep", 15), ("sleep", 30), ("sleep", 0)]),
+              ("sleep", 10), ("cancel", "F", "stop"), ("sleep", 50)]
+    s.expect = {"resumes": {"F": [(0, "nil"), (10, '"stop"'), (40, "nil"), (40, "nil")], "Z": [(0, "nil"), (15, "nil")]}}
     out.append(s)
     # D5: two fibers with deadlines on the same channel; the earlier deadline cancels only its own fiber
     s = Scenario("d5-two-deadlines")
